@@ -143,10 +143,10 @@ def main():
         "version": 1,
         "setup_cmd": "./setup.sh",
         "hooks": {
-            "guard": "cfg(kani)",
-            "enable": "no source hooks in /repo: Kani harness modules are appended to a scratch copy of the crate (outside /repo and /verif) at check time; cfg(kani) is set only by cargo kani there",
+            "guard": "cfg(quiver_verif)",
+            "enable": "RUSTFLAGS=--cfg quiver_verif when sqvm/qv.py builds tools/qvdump against /repo's crates (own target dir under /verif/.build). Two hooks, both read-only accessors: quiver_compiler::compiler::verif_hooks re-exports narrowing's intersect_types/compute_complement; Executor::verif_compatibility_tables returns the executor's run-time type-test tables (used by C08's merged variant). The Kani harnesses need no hook: harness modules are appended to a scratch copy of the crate outside /repo and /verif, where cargo kani sets cfg(kani).",
             "baseline_off_cmd": "cd /repo && cargo test --workspace --no-fail-fast --offline",
-            "source_commits": [],
+            "source_commits": ["83ff66a", "9cbafb0"],
             "add_only": True,
         },
         "engines": [
